@@ -2,22 +2,34 @@
 # usage: seedtest.sh <Cxx> <worktree with patch applied and seeded/ deliverables> [check ids...]
 # Confirms a seeded change: (1) existing suite passes with it, (2) demo fails with it,
 # (3) demo passes without it; then runs the given checks against the changed tree.
+# Round 2 deliverables carry seeded/demo.sh (run from the worktree root, exit 0 = property holds);
+# round 1 deliverables carry a *_test.go with TestSeededDemo that is copied into go/mcap (or go/ros/ros1msg).
 set -u
 P=$1; WT=$2; shift 2
 cd $WT
+export GOPROXY=off GOSUMDB=off GOTOOLCHAIN=local
 S=$WT/seeded
 [ -f $S/patch.diff ] || { echo "no patch"; exit 2; }
-DEMO=$(ls $S | grep -E '_test.go$' | head -1)
-DEST=go/mcap
-grep -q '"go/ros' $S/meta.json 2>/dev/null && grep -q ros1msg $S/meta.json && DEST=go/ros/ros1msg
+rundemo() {
+  if [ -f $S/demo.sh ]; then
+    (cd $WT && timeout 1200 bash seeded/demo.sh 2>&1 | tail -4; exit ${PIPESTATUS[0]})
+    return $?
+  fi
+  DEMO=$(ls $S | grep -E '_test.go$' | head -1)
+  DEST=go/mcap
+  grep -q '"go/ros' $S/meta.json 2>/dev/null && grep -q ros1msg $S/meta.json && DEST=go/ros/ros1msg
+  cp $S/$DEMO $DEST/zz_seeded_demo_test.go
+  (cd $DEST && go test -count=1 -run TestSeededDemo . 2>&1 | tail -3; exit ${PIPESTATUS[0]}); rc=$?
+  rm -f $DEST/zz_seeded_demo_test.go
+  return $rc
+}
 echo "== $P: baseline with patch"
 VERIF_REPO=$WT /verif/tools/baseline_off.sh | tail -3
 echo "== demo with patch (must FAIL)"
-cp $S/$DEMO $DEST/zz_seeded_demo_test.go
-(cd $DEST && go test -count=1 -run TestSeededDemo . 2>&1 | tail -3)
+rundemo; echo "demo rc with patch: $?"
 echo "== demo without patch (must PASS)"
-git apply -R $S/patch.diff && (cd $DEST && go test -count=1 -run TestSeededDemo . 2>&1 | tail -3); git apply $S/patch.diff
-rm -f $DEST/zz_seeded_demo_test.go
+git apply -R $S/patch.diff && { rundemo; echo "demo rc without patch: $?"; }; git apply $S/patch.diff
+git status --short | grep -v '^?? seeded/' | head -5
 for c in "$@"; do
   echo "== check $c against patched tree"
   (cd /verif && VERIF_REPO=$WT ./check $c 2>&1 | grep -v "^Parsing\|^Semantic\|^Linting" | grep -E "VIOLATION|KNOWN|MACHINERY|quick:|DRIFT" | cut -c1-300 | head -8)
